@@ -279,8 +279,13 @@ def c09_worker(item):
     res = Res()
     cfg = wsgen.GenConfig(p_fail=0.35, max_patches=r.choice([2, 3, 5, 8]))
     ws = wsgen.generate(seed, cfg)
+    if r.random() < 0.12:
+        # differing ---/+++ names whose files were created / deleted earlier in the same run: the in-memory
+        # state of a single invocation and the disk state of a split one must lead to the same choice
+        ws = c16_names_case(r, seed, binary, Res(), only_workspace=True)
+        res.count("differing-names-workspaces")
     np_ = len(ws.patches)
-    g = r.randint(1, np_)  # goal: first g patches
+    g = r.randint(1, np_) if len(ws.patches) != 2 or r.random() < 0.5 else 2  # goal: first g patches
     backup = r.choice(["never", "never", "always", None])
 
     def inv(goal_kind, upto, threads):
@@ -1046,8 +1051,8 @@ def c16_options_case(r, seed, binary, res):
 STATES = ["E", "C", "D", "A"]
 
 
-def c16_names_case(r, seed, binary, res):
-    so, sn = r.choice(STATES), r.choice(STATES)
+def c16_names_case(r, seed, binary, res, so=None, sn=None, only_workspace=False):
+    so, sn = so or r.choice(STATES), sn or r.choice(STATES)
     old, new = r.choice([("src/thing.c.orig", "src/thing.c"), ("old/name.txt", "new/name.txt"), ("f.old", "f.new"), ("deep/a/b/x.h", "x.h")])
     strip = r.choice([0, 1, 2])
     content = b"l1\nl2\nl3\n"
@@ -1098,6 +1103,8 @@ def c16_names_case(r, seed, binary, res):
     ws.trees = [t0, tree1] + ([tree2] if target_exists else [])
     ws.fail_at = None if target_exists else 1
     ws.seed = seed
+    if only_workspace:
+        return ws
     mode = r.choice(["single-seq", "single-par", "split"])
     with Scratch("c16n") as scr:
         orig, work = fresh(scr, ws, 0)
@@ -1523,12 +1530,33 @@ def interleaving_signature(summ):
 # C06 parallel push equals single-threaded push under every schedule
 
 
-def c06_scripts(r, summ, nthreads):
+def c06_scripts(r, summ, nthreads, ws=None):
     """schedule scripts derived from an ungated traced run"""
     scripts = []
     queues = summ["queues"]
     final = summ["final"]
     workers = sorted(queues)
+    # two workers racing to flag DIFFERENT failing patches, in both orders: the later patch j is decided upon
+    # (apply-checked) before the earlier patch i is flagged, and flags after it - and the other way round
+    if ws is not None:
+        failing = {}
+        for pi, p in enumerate(ws.patches):
+            for op in p.ops:
+                if op.poison:
+                    failing.setdefault(pi, set()).add(op.path)
+        idxs = sorted(failing)
+        if len(idxs) >= 2:
+            i = idxs[0]
+            for j in idxs[1:]:
+                wi = [w for w in workers if any(idx == i and name in failing[i] for idx, name in queues[w])]
+                wj = [w for w in workers if any(idx == j and name in failing[j] for idx, name in queues[w])]
+                if wi and wj and wi[0] != wj[0]:
+                    fi = [name for idx, name in queues[wi[0]] if idx == i and name in failing[i]][0]
+                    fj = [name for idx, name in queues[wj[0]] if idx == j and name in failing[j]][0]
+                    scripts.append(("late-patch-flags-last", ["after apply-checked:%d:%s apply-begin:%d:%s 400" % (j, fj, i, fi),
+                                                              "after flagged:%d apply-go:%d:%s 400" % (i, j, fj)]))
+                    scripts.append(("late-patch-flags-first", ["after flagged:%d apply-begin:%d:%s 400" % (j, i, fi)]))
+                    break
     if final is not None:
         failing_workers = [w for w in workers if any(idx == final for idx, _ in queues[w])]
         others = [w for w in workers if w not in failing_workers and any(idx > final for idx, _ in queues[w])]
@@ -1625,7 +1653,8 @@ def c06_worker(item):
     if r.random() < 0.12:
         return c06_cleanup_race(r, seed, binary, res)
     cfg = wsgen.GenConfig(p_fail=0.65, max_patches=r.choice([3, 5, 8]), max_files=r.choice([3, 6, 8]), max_ops=r.choice([2, 3, 4]))
-    cfg.kinds = ["modify"] * 6 + ["create"] * 2 + ["delete"] * 3 + ["rename"] * 3 + ["chmod", "truncate"]
+    cfg.kinds = ["modify"] * 6 + ["create"] * 2 + ["delete"] * 3 + ["rename"] * 3 + ["chmod", "truncate", "fill"]
+    cfg.p_second_fail = 0.5
     ws = wsgen.generate(seed, cfg)
     nthreads = r.choice([2, 3, 4, 8, 16])
     backup = r.choice(["always", None, "never"])
@@ -1699,7 +1728,7 @@ def c06_worker(item):
         summ0, ok = par_run("natural", None)
         if not ok:
             return res
-        scripts = c06_scripts(r, summ0, nthreads)
+        scripts = c06_scripts(r, summ0, nthreads, ws)
         for i, (tag, lines) in enumerate(scripts):
             _, ok = par_run("%s#%d" % (tag, i), lines)
             if not ok:
